@@ -235,6 +235,15 @@ fn lex_check(pic: &[u8]) {
 }
 
 #[kani::proof]
+#[kani::unwind(6)]
+fn lex_picture_len4_bounded() {
+    let bytes: [u8; 4] = kani::any();
+    let len: usize = kani::any();
+    kani::assume(len <= 4);
+    lex_check(&bytes[..len]);
+}
+
+#[kani::proof]
 #[kani::unwind(7)]
 fn lex_picture_len5_bounded() {
     let bytes: [u8; 5] = kani::any();
@@ -305,6 +314,7 @@ fn lex_blank_run_bounded() {
 #[kani::proof]
 #[kani::unwind(40)]
 #[kani::stub(crate::util::try_format, stub_try_format)]
+#[kani::stub(<str as crate::util::StrExt>::try_to_string, stub_try_to_string)]
 fn picture_token_limit() {
     let p36 = "-:-:-:-:-:-:-:-:-:-:-:-:-:-:-:-:-:-:";
     let p37 = "-:-:-:-:-:-:-:-:-:-:-:-:-:-:-:-:-:-:-";
@@ -317,6 +327,11 @@ fn picture_token_limit() {
 }
 
 pub fn stub_try_format(_args: fmt::Arguments<'_>) -> Result<String> {
+    Ok(String::new())
+}
+
+/// error texts are not part of any property: the allocation-fallible copy is replaced by an empty string
+pub fn stub_try_to_string(_s: &str) -> Result<String> {
     Ok(String::new())
 }
 
@@ -953,6 +968,7 @@ fn day_of_year_depends_on_leapness() {
 #[kani::proof]
 #[kani::unwind(14)]
 #[kani::stub(crate::util::try_format, stub_try_format)]
+#[kani::stub(<str as crate::util::StrExt>::try_to_string, stub_try_to_string)]
 #[kani::stub(crate::common::date2julian, crate::kverif::date2julian_by_contract)]
 fn week_day_name_contract() {
     let p = any_probe::<Date>();
@@ -970,11 +986,9 @@ fn week_day_name_contract() {
 }
 
 /// write_u32(value, width): the decimal digits of value, zero-padded on the left to at least `width`
-#[kani::proof]
-#[kani::unwind(13)]
-#[kani::stub(crate::util::try_format, stub_try_format)]
-fn write_u32_contract() {
+fn write_u32_check(limit: u32) {
     let v: u32 = kani::any();
+    kani::assume(v <= limit);
     let width: usize = kani::any();
     kani::assume(width >= 1 && width <= 10);
     let mut w = Sink::new();
@@ -983,6 +997,16 @@ fn write_u32_contract() {
     let n = put_digits(&mut exp, 0, v, width);
     assert!(w.eq_bytes(&exp[..n]));
 }
+
+#[kani::proof]
+#[kani::unwind(13)]
+#[kani::stub(crate::util::try_format, stub_try_format)]
+fn write_u32_contract() { write_u32_check(u32::MAX); }
+
+#[kani::proof]
+#[kani::unwind(13)]
+#[kani::stub(crate::util::try_format, stub_try_format)]
+fn write_u32_small_bounded() { write_u32_check(99_999); }
 
 pub static mut K_WU_VALUE: u32 = 0;
 pub static mut K_WU_WIDTH: usize = 0;
@@ -1086,6 +1110,7 @@ macro_rules! glue_harness {
         #[kani::proof]
         #[kani::unwind(13)]
         #[kani::stub(crate::util::try_format, stub_try_format)]
+        #[kani::stub(<str as crate::util::StrExt>::try_to_string, stub_try_to_string)]
         #[kani::stub(NaiveDateTime::fraction, fraction_by_contract)]
         #[kani::stub(NaiveDateTime::month_str, mk_month_str)]
         #[kani::stub(NaiveDateTime::day_str, mk_day_str)]
@@ -1142,6 +1167,7 @@ macro_rules! token_harness {
         #[kani::proof]
         #[kani::unwind(13)]
         #[kani::stub(crate::util::try_format, stub_try_format)]
+        #[kani::stub(<str as crate::util::StrExt>::try_to_string, stub_try_to_string)]
         #[kani::stub(crate::common::date2julian, crate::kverif::date2julian_by_contract)]
         #[kani::stub(NaiveDateTime::fraction, fraction_by_contract)]
         fn $name() { token_check::<$t>(true); }
@@ -1158,6 +1184,7 @@ token_harness!(fmt_tokens_oracle_date, crate::oracle::Date);
 #[kani::proof]
 #[kani::unwind(13)]
 #[kani::stub(crate::util::try_format, stub_try_format)]
+#[kani::stub(<str as crate::util::StrExt>::try_to_string, stub_try_to_string)]
 #[kani::stub(crate::common::date2julian, crate::kverif::date2julian_by_contract)]
 #[kani::stub(NaiveDateTime::fraction, fraction_by_contract)]
 fn fmt_two_tokens_timestamp_bounded() {
@@ -1410,6 +1437,7 @@ macro_rules! parse_harness {
         #[kani::proof]
         #[kani::unwind(14)]
         #[kani::stub(crate::util::try_format, stub_try_format)]
+        #[kani::stub(<str as crate::util::StrExt>::try_to_string, stub_try_to_string)]
         #[kani::stub(crate::common::date2julian, crate::kverif::date2julian_by_contract)]
         #[kani::stub(chrono::Local::now, crate::kverif::stub_now)]
         fn $name() { parse_one_check::<$t>(); }
@@ -1546,7 +1574,7 @@ fn adjust12(h: u32, pm: bool) -> u32 {
 }
 
 /// what the property prescribes for a picture `fields[..n]`, given the scanners' results in the log
-fn ref_glue<T: DateTimeFormat>(fields: &[Field; PICN], n: usize, text: &[u8], cy: i64, cm: u32, rp: &mut Replay) -> Option<RefRec> {
+fn ref_glue<T: DateTimeFormat>(fields: &[Field], n: usize, text: &[u8], cy: i64, cm: u32, rp: &mut Replay) -> Option<RefRec> {
     let date = T::HAS_DATE;
     let time = T::HAS_TIME;
     let ym = T::IS_INTERVAL_YM;
@@ -1718,10 +1746,10 @@ fn ref_glue<T: DateTimeFormat>(fields: &[Field; PICN], n: usize, text: &[u8], cy
     Some(r)
 }
 
-fn parse_glue_check<T: DateTimeFormat>() {
+fn parse_glue_check<T: DateTimeFormat>(maxn: usize) {
     let c = crate::kverif::set_any_clock(false);
     let n: usize = kani::any();
-    kani::assume(n >= 1 && n <= PICN);
+    kani::assume(n >= 1 && n <= maxn);
     let fs: [Field; PICN] = [any_field(), any_field(), any_field()];
     let bytes: [u8; GTXT] = kani::any();
     let len: usize = kani::any();
@@ -1765,7 +1793,7 @@ fn parse_glue_check<T: DateTimeFormat>() {
 }
 
 macro_rules! parse_glue_harness {
-    ($name:ident, $t:ty) => {
+    ($name:ident, $t:ty, $n:expr) => {
         #[kani::proof]
         #[kani::unwind(13)]
         #[kani::stub(crate::util::try_format, stub_try_format)]
@@ -1778,14 +1806,21 @@ macro_rules! parse_glue_harness {
         #[kani::stub(parse_week_day_name, parse_week_day_name_oracle)]
         #[kani::stub(parse_week_day_number, parse_week_day_number_oracle)]
         #[kani::stub(eat_whitespaces, eat_whitespaces_oracle)]
-        fn $name() { parse_glue_check::<$t>(); }
+        #[kani::stub(<str as crate::util::StrExt>::try_to_string, stub_try_to_string)]
+        fn $name() { parse_glue_check::<$t>($n); }
     };
 }
-parse_glue_harness!(parse_glue_date_bounded, Date);
-parse_glue_harness!(parse_glue_time_bounded, Time);
-parse_glue_harness!(parse_glue_timestamp_bounded, Timestamp);
-parse_glue_harness!(parse_glue_interval_ym_bounded, IntervalYM);
-parse_glue_harness!(parse_glue_interval_dt_bounded, IntervalDT);
+parse_glue_harness!(parse_glue1_date_bounded, Date, 1);
+parse_glue_harness!(parse_glue1_time_bounded, Time, 1);
+parse_glue_harness!(parse_glue1_timestamp_bounded, Timestamp, 1);
+parse_glue_harness!(parse_glue1_interval_ym_bounded, IntervalYM, 1);
+parse_glue_harness!(parse_glue1_interval_dt_bounded, IntervalDT, 1);
+parse_glue_harness!(parse_glue2_date_bounded, Date, 2);
+parse_glue_harness!(parse_glue2_time_bounded, Time, 2);
+parse_glue_harness!(parse_glue2_timestamp_bounded, Timestamp, 2);
+parse_glue_harness!(parse_glue2_interval_ym_bounded, IntervalYM, 2);
+parse_glue_harness!(parse_glue2_interval_dt_bounded, IntervalDT, 2);
+parse_glue_harness!(parse_glue3_timestamp_bounded, Timestamp, 3);
 
 // =========================================================================================
 // C06: every token is lossless on its own - the scanner reads back exactly what the renderer wrote,
@@ -1901,6 +1936,7 @@ fn token_roundtrip_day_of_year() {
 #[kani::proof]
 #[kani::unwind(13)]
 #[kani::stub(crate::util::try_format, stub_try_format)]
+#[kani::stub(<str as crate::util::StrExt>::try_to_string, stub_try_to_string)]
 fn token_roundtrip_year_fraction() {
     let y: u32 = kani::any();
     kani::assume(y >= 1 && y <= 9999);
